@@ -499,6 +499,7 @@ func parseLiteral(literal []byte) (byte, any, error) {
 					hasExp = true
 				} else if i == strlen-1 && isFloatType(c) {
 					numberType = c
+					strlen--
 				} else {
 					number = false
 				}
@@ -530,12 +531,12 @@ func parseLiteral(literal []byte) (byte, any, error) {
 		} else if number {
 			switch numberType {
 			case 'F', 'f':
-				num, err := strconv.ParseFloat(string(literal[:strlen-1]), 64)
+				num, err := strconv.ParseFloat(string(literal[:strlen]), 64)
 				return TagFloat, float32(num), err
 			case 'D', 'd':
 				fallthrough
 			default:
-				num, err := strconv.ParseFloat(string(literal[:strlen-1]), 64)
+				num, err := strconv.ParseFloat(string(literal[:strlen]), 64)
 				return TagDouble, num, err
 			}
 		} else if unqstr {
